@@ -67,7 +67,10 @@ def c01(F: Facts):
 
 def c02(F: Facts):
     v = []
+    stopped = {r['bus'] for r in F.tr if r['k'] == 'a-stop-begin'}
     for bus in {b for (b, _e) in F.enq}:
+        if bus in stopped:
+            continue  # what a bus that stop() tears down (and a later dispatch restarts) does with its queue is not judged; the others are
         evs = [(idxs[0], ev) for (b, ev), idxs in F.enq.items() if b == bus]
         evs.sort()
         started = [(i, ev) for i, ev in evs if (bus, ev) in F.first_enter]
